@@ -23,12 +23,14 @@ def run(ctx: Ctx):
     small_v = {97, 59, 58, 44, 92, 61, 10}
     if ctx.quick:
         fams = [("inject", dict(PLen=2, VLen=3, PAlpha=small_p, VAlpha=small_v)),
+                ("injectlist", dict(PLen=2, VLen=1, PAlpha={97, 59, 58, 34, 44}, VAlpha={97})),
                 ("value", dict(PLen=1, VLen=3, PAlpha=ALPHA, VAlpha=ALPHA))]
     else:
         mid = {97, 59, 58, 44, 34, 92, 37, 61, 10}
         fams = [("inject", dict(PLen=2, VLen=3, PAlpha=mid, VAlpha=mid)),
                 ("inject", dict(PLen=1, VLen=3, PAlpha=ALPHA, VAlpha=ALPHA)),
                 ("inject", dict(PLen=2, VLen=4, PAlpha=small_p, VAlpha={97, 59, 58, 92, 61})),
+                ("injectlist", dict(PLen=2, VLen=2, PAlpha={97, 59, 58, 34, 44, 92, 61}, VAlpha={97, 59, 58})),
                 ("value", dict(PLen=1, VLen=4, PAlpha=ALPHA, VAlpha=ALPHA))]
     for fam, k in fams:
         r = ctx.mc("MC_ContentLine", cfg_text(spec="Spec", constants={
